@@ -54,6 +54,7 @@ package http
 //@   ghost emitted int = 0
 //@   ghostout emitted
 //@   bind processChunk cpos := rpos - len(readBuff)
+//@   requires p.params.PipelineSettings.AvgEventSize >= 0
 //@   ensures result == nil ==> emitted >= len(body)
 //@   loop 1 invariant 0 <= rpos && rpos <= len(body) && 0 <= emitted
 //@   loop 1 invariant emitted + len(eventBuff) == rpos
@@ -61,11 +62,9 @@ package http
 //@   loop 1 invariant disjoint(readBuff, eventBuff) && len(readBuff) == old_len
 //@   ghost old_len int
 //@   callee newReadBuff()
-//@     pure
 //@     set old_len := len(result)
 //@   callee newEventBuffs()
-//@     pure
-//@     ensures len(result) == 0 && !sameblock(result, readBuff)
+//@     ensures !sameblock(result, readBuff)
 //@   callee Read(b) (n, err)
 //@     modifies b
 //@     ensures 0 <= n && n <= len(b)
@@ -77,3 +76,21 @@ package http
 //@     pure
 //@   callee putSourceID(x)
 //@     pure
+
+// Buffers come from sync.Pool.  That a pooled buffer is owned by one request at
+// a time is trusted (stated at the call sites in processBulk); that the event
+// buffer starts empty is proved here.
+
+//@ func (*Plugin).newReadBuff
+//@   pure
+//@   callee Get() (r)
+//@     pure
+//@     ensures isnil(r) || typeis(r, "*[]byte")
+
+//@ func (*Plugin).newEventBuffs
+//@   requires p.params.PipelineSettings.AvgEventSize >= 0
+//@   pure
+//@   ensures len(result) == 0
+//@   callee Get() (r)
+//@     pure
+//@     ensures isnil(r) || typeis(r, "*[]byte")
